@@ -36,6 +36,8 @@ def main():
                     dst = os.path.join(HERE, "regress", prop)
                     os.makedirs(dst, exist_ok=True)
                     name = "mutant_" + os.path.basename(patch).replace(".diff", "").replace(".patch", "") + ".json"
+                    if os.path.basename(patch) == "patch.diff":      # seeded/<ID>/<seed>/patch.diff
+                        name = "seed_%s_%s.json" % tuple(os.path.dirname(patch).split(os.sep)[-2:])
                     shutil.copy(os.path.join(HERE, rp) if not os.path.isabs(rp) else rp, os.path.join(dst, name))
                     print("saved", name)
                     break
